@@ -31,6 +31,16 @@ int main(int argc, char ** argv)
         std::printf("a = b: returns *this: %s, values/independence: %s\n", r == &a ? "yes" : "NO", ok ? "ok" : "VIOLATED");
         bad |= !ok;
     }
+    {   // a moved-from, then a = b (the defaulted move leaves a.m_size unchanged and a.m_ptr null)
+        own_t a(na == 0 ? 4 : na), b(nb == 0 ? 2 : nb);
+        std::size_t n = b.m_size;
+        fill(a, 1000); fill(b, 5);
+        own_t sink(std::move(a));
+        a = b;
+        bool ok = same(a, n, 5) && same(b, n, 5);
+        std::printf("moved-from a, then a = b: %s\n", ok ? "ok" : "VIOLATED");
+        bad |= !ok;
+    }
     {   // a = a
         own_t a(na == 0 ? 3 : na);
         std::size_t n = a.m_size;
